@@ -59,7 +59,7 @@ class C05Machine(Machine):
         "merge_adds_uri_synonym_only", "merge_keeps_pattern", "merge_into_start_built", "same_object_twice",
         "empty_prefix_token", "empty_uri_prefix_token", "start_from_chain", "start_from_subconverter",
         "retry_rejected_now_accepted", "retry_rejected_again_rejected", "other_side_of_rejected_appended",
-        "start_from_reconciliation", "submission_with_own_case_variants",
+        "start_from_reconciliation", "submission_with_own_case_variants", "large_converter",
     ]
 
     @classmethod
@@ -79,6 +79,13 @@ class C05Machine(Machine):
             "start_kind": rng.choice(START_KINDS),
             "start_size": rng.randint(0, 5),
         }
+        large = rng.random() < (0.02 if tier == "quick" else 0.06)
+        cfg["large"] = large
+        if large:
+            cfg["curie_pool"] = cfg["curie_pool"] + tokens.synthetic_curie_prefixes(60)
+            cfg["uri_pool"] = cfg["uri_pool"] + tokens.synthetic_uri_prefixes(60)
+            cfg["start_size"] = rng.randint(15, 30)
+            cfg["max_ops"] = rng.randint(8, 24)
         return cfg
 
     def __init__(self, config, known=frozenset()):
@@ -466,6 +473,8 @@ class C05Machine(Machine):
             folded = [t.casefold() for t in sorted(mrec.all_prefixes())] + ["|"] + [t.casefold() for t in sorted(mrec.all_uri_prefixes())]
             if len(set(folded)) < len(folded):
                 self.probe("submission_with_own_case_variants")
+            if len(self.model.records) >= 20:
+                self.probe("large_converter")
             if "" in mrec.all_prefixes():
                 self.probe("empty_prefix_token")
             if "" in mrec.all_uri_prefixes():
